@@ -18,6 +18,11 @@ TOKENS = [
     # aliquots
     "NE/4", "N/2", "NE", "SW¼", "N½", "S/2N/2", "Northeast Quarter", "North Half", "E/2W/2", "NW/4NE/4", "N2", "SE4", "W 1/2", "ALL", "All of",
     "NE/4NE/4NE/4NE/4", "N/2N/2N/2", "SE/4W/2",
+    # spelled-out quarters without the word 'Quarter', dotted abbreviations, worded halves
+    "Northeast", "North West", "south-east", "SOUTHWEST", "N.E.", "N/2 of the Northeast", "South Half of the North West", "W/2 south-east",
+    "N2NENE", "E2NENW", "NORTH HALF OF THE SOUTHWEST QUARTER", "Quarter", "Half",
+    # acreages
+    "Lots 1(38.00), 2(39.10), 1(38.00)", "Lot 2(38.29), Lot 2(38.29)", "L1(40)", "(38.00)", "[40.1]", "Lots 1 - 3(40)", "1(38.00)", "2 (39.1)",
     # connectives / punctuation
     ":", ",", ";", ".", "-", "–", "—", "and", "&", "through", "thru", "to", "of", "of the", "in", "all", "the", "/", "(", ")", "[", "]",
     # numbers
